@@ -150,3 +150,44 @@ Example C13_numeric_nonvacuous :
   /\ (num_in_range TUInt (-1)%Z, num_value TUInt (-1)%Z) = (false, JNum 4294967295%Z)
   /\ num_chars 2147483648%Z <> num_chars (-2147483648)%Z.
 Proof. vm_compute. repeat split. discriminate. Qed.
+
+(* ---- front ends (round 8): the formatter OBJECT an application gets from SimplePipeline::formatToJson(flag) or
+   JsonFormatter::instance() is in the mode it asked for, whatever formatter objects the process obtained before
+   (src_json_front is translated from simplepipeline.cpp / jsonformatter.h on every run) *)
+Theorem C13_source_front_ends_good : front_goodb src_json_front = true.
+Proof. vm_compute. reflexivity. Qed.
+Print Assumptions C13_source_front_ends_good.
+
+Theorem C13_front_end_gives_the_requested_mode : forall cs c m,
+  front_format src_json_cfg src_json_front cs c m = json_format src_json_cfg (requested c) m.
+Proof. exact (front_format_is_requested_format src_json_cfg src_json_front C13_source_front_ends_good). Qed.
+Print Assumptions C13_front_end_gives_the_requested_mode.
+
+Theorem C13_fluent_compact_is_one_line_after_any_history : forall cs m,
+  Forall (fun c => 32 <= c) (front_format src_json_cfg src_json_front cs (CFluent true) m).
+Proof.
+  intros cs m. rewrite C13_front_end_gives_the_requested_mode.
+  exact (compact_record_one_line src_json_cfg C13_source_configuration_good m).
+Qed.
+Print Assumptions C13_fluent_compact_is_one_line_after_any_history.
+
+Theorem C13_front_end_oracle_holds : forall cs c m, wf_msg m ->
+  prop_c13_b (requested c) m (front_format src_json_cfg src_json_front cs c m) = true.
+Proof.
+  intros cs c m W. rewrite C13_front_end_gives_the_requested_mode.
+  exact (oracle_holds src_json_cfg C13_source_configuration_good (requested c) m W).
+Qed.
+Print Assumptions C13_front_end_oracle_holds.
+
+(* a front end that hands out ONE shared object created by the first request does not have the property *)
+Theorem C13_shared_formatter_object_refuted :
+  exists cs, snd (obtain shared_front (obtain_all shared_front None cs) (CFluent true)) = false.
+Proof. exact shared_front_refuted. Qed.
+Print Assumptions C13_shared_formatter_object_refuted.
+
+Example C13_front_nonvacuous :
+  front_format src_json_cfg src_json_front [CFluent false; CInstance; CFluent true; CFluent false] (CFluent true) ex_msg
+  = json_format src_json_cfg true ex_msg
+  /\ front_format src_json_cfg src_json_front [CFluent true] CInstance ex_msg = json_format src_json_cfg false ex_msg
+  /\ json_format src_json_cfg true ex_msg <> json_format src_json_cfg false ex_msg.
+Proof. vm_compute. repeat split. discriminate. Qed.
